@@ -69,11 +69,11 @@ theorem good_nonneg (s : Src) (d : Int) (hd : 0 ≤ d) : 0 ≤ (s.good nonneg).g
     by_cases h : 0 ≤ n <;> simp [h] <;> omega
 
 theorem bsp_dur (o : Option Int) (s : Src) (d : Int) :
-    precOK anyInt anyInt (o.map (· * msNs)) (s.scale msNs) (d * msNs)
-      (match o with | some v => v * msNs | none => srcOr s d * msNs) = true := by
+    precOK anyInt anyInt (o.map mulMs) (s.map mulMs) (mulMs d)
+      (match o with | some v => mulMs v | none => mulMs (srcOr s d)) = true := by
   cases o with
   | some v => simp [precOK, anyInt]
-  | none => cases s <;> simp [precOK, anyInt, Src.good, Src.scale, srcOr]
+  | none => cases s <;> simp [precOK, anyInt, Src.good, Src.map, srcOr]
 
 
 theorem L.sdk_precedence_bsp (i : BspIn) : bspOK i (newBSP i) = true := by
@@ -155,8 +155,8 @@ theorem L.sdk_precedence_span_limits (m : SlMode) (o : List Int) (e : SlEnv) (ho
       simp [slimOK, providerSpanLimits, slEnvSrc, slDefaults, all3, slFieldOK]
 
 /-! sdk/log -/
-theorem getenvInt_none (v : Env) (k : Int) :
-    getenvInt v k none = match envInt v with | .val n => some (n * k) | _ => none := by
+theorem getenvInt_none (v : Env) (k : Int → Int) :
+    getenvInt v k none = match envInt v with | .val n => some (k n) | _ => none := by
   unfold getenvInt envInt
   cases v with
   | none => rfl
@@ -166,8 +166,8 @@ theorem getenvInt_none (v : Env) (k : Int) :
     · cases h : atoi s <;> simp [hs, h]
 
 /-- one `clearLessThanOne, getenv, clearLessThanOne, fallback` chain -/
-theorem blrp_chain (o : Option Int) (v : Env) (k d : Int) (hd : 1 ≤ d) :
-    precOK positive positive o ((envInt v).scale k) d
+theorem blrp_chain (o : Option Int) (v : Env) (k : Int → Int) (d : Int) (hd : 1 ≤ d) :
+    precOK positive positive o ((envInt v).map k) d
       (fallback d (clearLT1 (getenvInt v k (clearLT1 o)))) = true
     ∧ 1 ≤ fallback d (clearLT1 (getenvInt v k (clearLT1 o))) := by
   cases o with
@@ -176,38 +176,38 @@ theorem blrp_chain (o : Option Int) (v : Env) (k d : Int) (hd : 1 ≤ d) :
     · have hx' : ¬ (1 ≤ x) := by omega
       simp only [clearLT1, hx, if_true, getenvInt_none]
       cases h : envInt v with
-      | absent => simp [precOK, positive, hx', Src.scale, Src.good, fallback, clearLT1]; omega
-      | invalid => simp [precOK, positive, hx', Src.scale, Src.good, fallback, clearLT1]; omega
+      | absent => simp [precOK, positive, hx', Src.map, Src.good, fallback, clearLT1]; omega
+      | invalid => simp [precOK, positive, hx', Src.map, Src.good, fallback, clearLT1]; omega
       | val n =>
-        by_cases hn : n * k < 1
-        · have : ¬ (1 ≤ n * k) := by omega
-          simp [precOK, positive, hx', Src.scale, Src.good, fallback, clearLT1, hn, this]; omega
-        · have : 1 ≤ n * k := by omega
-          simp [precOK, positive, hx', Src.scale, Src.good, fallback, clearLT1, hn, this]
+        by_cases hn : k n < 1
+        · have : ¬ (1 ≤ k n) := by omega
+          simp [precOK, positive, hx', Src.map, Src.good, fallback, clearLT1, hn, this]; omega
+        · have : 1 ≤ k n := by omega
+          simp [precOK, positive, hx', Src.map, Src.good, fallback, clearLT1, hn, this]
     · have hx' : 1 ≤ x := by omega
       simp [clearLT1, hx, getenvInt, precOK, positive, hx', fallback]
   | none =>
     simp only [clearLT1, getenvInt_none]
     cases h : envInt v with
-    | absent => simp [precOK, Src.scale, Src.good, fallback, clearLT1]; omega
-    | invalid => simp [precOK, Src.scale, Src.good, fallback, clearLT1]; omega
+    | absent => simp [precOK, Src.map, Src.good, fallback, clearLT1]; omega
+    | invalid => simp [precOK, Src.map, Src.good, fallback, clearLT1]; omega
     | val n =>
-      by_cases hn : n * k < 1
-      · have : ¬ (1 ≤ n * k) := by omega
-        simp [precOK, positive, Src.scale, Src.good, fallback, clearLT1, hn, this]; omega
-      · have : 1 ≤ n * k := by omega
-        simp [precOK, positive, Src.scale, Src.good, fallback, clearLT1, hn, this]
+      by_cases hn : k n < 1
+      · have : ¬ (1 ≤ k n) := by omega
+        simp [precOK, positive, Src.map, Src.good, fallback, clearLT1, hn, this]; omega
+      · have : 1 ≤ k n := by omega
+        simp [precOK, positive, Src.map, Src.good, fallback, clearLT1, hn, this]
 
 theorem clearLT1_idem (o : Option Int) : clearLT1 (clearLT1 o) = clearLT1 o := by
   cases o with
   | none => rfl
   | some v => by_cases h : v < 1 <;> simp [clearLT1, h]
 
-theorem getenvInt_unset (k : Int) (s : Option Int) : getenvInt none k s = s := by
+theorem getenvInt_unset (k : Int → Int) (s : Option Int) : getenvInt none k s = s := by
   cases s <;> rfl
 
 theorem blrp_given (o : Option Int) (v : Env) :
-    clearLT1 (getenvInt v 1 (clearLT1 o)) = batchGiven o v := by
+    clearLT1 (getenvInt v id (clearLT1 o)) = batchGiven o v := by
   unfold batchGiven
   cases h : clearLT1 o with
   | some x =>
@@ -256,18 +256,18 @@ theorem given_pos (o : Option Int) (v : Env) (x : Int) (h : batchGiven o v = som
 
 theorem L.sdk_precedence_blrp (x : BlrpIn) : blrpOK x (newBatchConfig x) = true := by
   rcases x with ⟨oq, oi, ot, ob, obuf, eq, ei, et, eb⟩
-  have h1 := blrp_chain oq eq 1 2048 (by omega)
-  have h2 := blrp_chain oi ei msNs 1000000000 (by omega)
-  have h3 := blrp_chain ot et msNs 30000000000 (by omega)
-  have h4 := blrp_chain obuf none 1 1 (by omega)
+  have h1 := blrp_chain oq eq id 2048 (by omega)
+  have h2 := blrp_chain oi ei mulMs 1000000000 (by omega)
+  have h3 := blrp_chain ot et mulMs 30000000000 (by omega)
+  have h4 := blrp_chain obuf none id 1 (by omega)
   simp only [blrpOK, newBatchConfig, Bool.and_eq_true]
   refine ⟨⟨⟨⟨?_, h2.1⟩, h3.1⟩, ?_⟩, ?_⟩
   · have := h1.1
-    cases h : envInt eq <;> simp [h, Src.scale] at this ⊢ <;> exact this
+    cases h : envInt eq <;> simp [h, Src.map] at this ⊢ <;> exact this
   · have := h4.1
-    simpa [envInt, Src.scale, getenvInt_unset, clearLT1_idem] using this
+    simpa [envInt, Src.map, getenvInt_unset, clearLT1_idem] using this
   · rw [blrp_given ob eb]
-    generalize fallback 2048 (clearLT1 (getenvInt eq 1 (clearLT1 oq))) = q at *
+    generalize fallback 2048 (clearLT1 (getenvInt eq id (clearLT1 oq))) = q at *
     cases hg : batchGiven ob eb with
     | none => simp [clampMax, fallback]
     | some v =>
@@ -276,14 +276,14 @@ theorem L.sdk_precedence_blrp (x : BlrpIn) : blrpOK x (newBatchConfig x) = true 
 
 theorem L.blrp_config_safe (x : BlrpIn) : blrpSafe (newBatchConfig x) = true := by
   rcases x with ⟨oq, oi, ot, ob, obuf, eq, ei, et, eb⟩
-  have h1 := (blrp_chain oq eq 1 2048 (by omega)).2
-  have h2 := (blrp_chain oi ei msNs 1000000000 (by omega)).2
-  have h3 := (blrp_chain ot et msNs 30000000000 (by omega)).2
-  have h4 := (blrp_chain obuf none 1 1 (by omega)).2
+  have h1 := (blrp_chain oq eq id 2048 (by omega)).2
+  have h2 := (blrp_chain oi ei mulMs 1000000000 (by omega)).2
+  have h3 := (blrp_chain ot et mulMs 30000000000 (by omega)).2
+  have h4 := (blrp_chain obuf none id 1 (by omega)).2
   have hb : 1 ≤ (newBatchConfig ⟨oq, oi, ot, ob, obuf, eq, ei, et, eb⟩).b := by
     simp only [newBatchConfig]
     rw [blrp_given ob eb]
-    generalize fallback 2048 (clearLT1 (getenvInt eq 1 (clearLT1 oq))) = q at *
+    generalize fallback 2048 (clearLT1 (getenvInt eq id (clearLT1 oq))) = q at *
     cases hg : batchGiven ob eb with
     | none => simp [clampMax, fallback]
     | some v =>
@@ -302,7 +302,7 @@ theorem L.blrp_batch_le_queue (x : BlrpIn) (v : Int) (h : batchGiven x.ob x.eb =
   simp only at h
   simp only [newBatchConfig]
   rw [blrp_given ob eb, h]
-  generalize fallback 2048 (clearLT1 (getenvInt eq 1 (clearLT1 oq))) = q
+  generalize fallback 2048 (clearLT1 (getenvInt eq id (clearLT1 oq))) = q
   simp only [clampMax, Option.map_some, fallback]
   split <;> omega
 
@@ -407,7 +407,7 @@ theorem ls_to_none {α : Type} (f : Opt → Option α) (v : Env) (h : ∀ n, f (
   · split <;> simp [lastSome, h]
 
 theorem ls_to (v : Env) :
-    lastSome pTimeout (envToOpts v) = (getEnvValue v).bind (fun s => (atoi s).map (· * msNs)) := by
+    lastSome pTimeout (envToOpts v) = (getEnvValue v).bind (fun s => (atoi s).map mulMs) := by
   unfold envToOpts
   cases getEnvValue v with
   | none => rfl
@@ -431,9 +431,9 @@ theorem tm_timeout (exp : Exp) (hl : exp.isLog = false) (parse : Parse) (e : Otl
     rw [ls_comp_none _ _ (fun _ => rfl), ls_comp_none _ _ (fun _ => rfl), ls_hdr_none _ _ (fun _ => rfl),
       ls_hdr_none _ _ (fun _ => rfl), ls_bool_none _ _ (fun _ => rfl), ls_bool_none _ _ (fun _ => rfl),
       ls_url_none _ _ _ _ (fun _ => rfl) (fun _ _ => rfl), ls_url_none _ _ _ _ (fun _ => rfl) (fun _ _ => rfl)]
-    cases ((getEnvValue e.toS).bind fun s => (atoi s).map (· * msNs)) with
+    cases ((getEnvValue e.toS).bind fun s => (atoi s).map mulMs) with
     | some x => rfl
-    | none => cases ((getEnvValue e.toG).bind fun s => (atoi s).map (· * msNs)) <;> rfl
+    | none => cases ((getEnvValue e.toG).bind fun s => (atoi s).map mulMs) <;> rfl
 
 theorem tm_fold {α : Type} (exp : Exp) (parse : Parse) (e : OtlpEnv) (opts : List UOpt) (get : Cfg → α)
     (prov : Opt → Option α) (happly : ∀ c o, get (applyOpt exp parse c o) = (prov o).getD (get c)) :
@@ -706,11 +706,11 @@ theorem log_timeout (exp : Exp) (hl : exp.isLog = true) (parse : Parse) (e : Otl
   cases lastSome optTimeout opts with
   | some v => rfl
   | none =>
-    have hc : convDuration = (fun s => (atoi s).map (· * msNs)) := rfl
+    have hc : convDuration = (fun s => (atoi s).map mulMs) := rfl
     simp only [getenvL, firstConv2 exp hl, provTimeout, hc, fallback, Option.or_none, initL]
-    cases ((envVal exp e.toS).bind fun s => (atoi s).map (· * msNs)) with
+    cases ((envVal exp e.toS).bind fun s => (atoi s).map mulMs) with
     | some x => rfl
-    | none => cases ((envVal exp e.toG).bind fun s => (atoi s).map (· * msNs)) <;> rfl
+    | none => cases ((envVal exp e.toG).bind fun s => (atoi s).map mulMs) <;> rfl
 
 theorem applyLog_comp (exp : Exp) (hl : exp.isLog = true) (parse : Parse) (c : LCfg) (o : UOpt) :
     (applyLogOpt exp parse c o).comp = (optComp exp o).or c.comp := by
